@@ -15,14 +15,15 @@
 (*                                           is a violation for the owners      *)
 (*   "@@ DRIFT l=<event> ..."                divergence outside every property  *)
 (* The orchestrator (check.py) turns them into VIOLATION / KNOWN-FINDING lines. *)
-EXTENDS StepProps, Dump, Json, IOUtils
+EXTENDS StepProps, Dump, ParserRef, Json, IOUtils
 
 Rec == ndJsonDeserialize(IOEnv.TRACE)
 
 VARIABLES l,      \* index of the next event
           vts,    \* slot -> last logged state of that slot ([dead |-> TRUE] after a panic)
           gh,     \* slot -> ghost record (history the properties speak about)
-          pp      \* the stand-alone parser of C03 episodes (last logged state)
+          pp,     \* the stand-alone parser of C03 episodes (last logged state)
+          cnt     \* how often each predicate was actually evaluated (vacuity guard, goes into the evidence)
 
 Dead == [dead |-> TRUE]
 Ghost0 == [drained |-> <<>>,      \* every line handed out through Changes.scrollback (C14)
@@ -36,6 +37,8 @@ Ghost0 == [drained |-> <<>>,      \* every line handed out through Changes.scrol
            carry |-> <<>>]        \* TextUnwrapper carry of a collector slot
 
 S(x) == ToString(x)
+FnEq(x, y) == x.f = y.f /\ x.a = y.a          \* compare the arguments only when the kinds agree (TLC is typed)
+OutsEq(xs, ys) == Len(xs) = Len(ys) /\ \A i \in 1..Len(xs) : FnEq(xs[i], ys[i])
 Msg(kind, ll, rest) == "@@ " \o kind \o " l=" \o S(ll) \o " " \o rest
 DiffFields(a, b) == {f \in DOMAIN a : f \in DOMAIN b => a[f] # b[f]}
 TermDiff(a, b) ==
@@ -192,6 +195,9 @@ Handle(ll, e) ==
         msgs |-> Conformance(ll, k, r, fns, e2, own)
                  \o StateMsgs(ll, prev, IF k = "rs" THEN <<>> ELSE fns, cur, e)
                  \o (IF k = "fc" THEN <<>> ELSE CallMsgs(ll, prev, cur, e))
+                 \o (IF k = "fs" /\ TokenMeaning(e.s).known
+                       /\ ~(LET want == TokenMeaning(e.s).fn IN IF want.f = "None" THEN fns = <<>> ELSE Len(fns) = 1 /\ FnEq(fns[1], want))
+                     THEN <<Msg("FAIL C03", ll, "the specification's own parser disagrees with the meaning of the sequence as written")>> ELSE <<>>)
                  \o (IF k = "fs" /\ Len(fns) = 1 /\ StepProp(prev.t, fns[1]) # "none"
                        /\ ~StepOK(prev.t, fns[1], cur.t, e.ch, IF e.consumed THEN Drained(e.dr) ELSE Unread)
                      THEN <<Msg("FAIL " \o StepProp(prev.t, fns[1]), ll, "declarative step predicate fails for " \o ToJson(fns[1]))>> ELSE <<>>)
@@ -242,8 +248,6 @@ ParserRun(p0, s) ==          \* -> [p, outs]
   FoldLeft(LAMBDA acc, c : LET r == Step(acc.p, c) IN [p |-> r.p, outs |-> Append(acc.outs, r.out)],
            [p |-> p0, outs |-> <<>>], s)
 (* sweep: the input character abstracted as -2 ("self"), on both sides alike    *)
-FnEq(x, y) == x.f = y.f /\ x.a = y.a          \* compare the arguments only when the kinds agree (TLC is typed)
-OutsEq(xs, ys) == Len(xs) = Len(ys) /\ \A i \in 1..Len(xs) : FnEq(xs[i], ys[i])
 Abs(r, c) == [out |-> IF r.out.f = "Print" /\ r.out.a[1] = c THEN F1("Print", -2) ELSE r.out,
               st |-> IF r.p.inter = c THEN [r.p EXCEPT !.inter = -2] ELSE r.p]
 SweepPoints(lo, hi) ==
@@ -258,7 +262,11 @@ HandleParser(ll, e) ==
     IN [pp |-> e.st,
         msgs |-> (IF ok THEN <<>> ELSE <<Msg("CONF", ll, "what=parser owners={\"C03\"} first-bad-char=" \o S(firstBad)
                                              \o " spec=" \o ToJson([outs |-> r.outs, p |-> r.p]))>>)
-                 \o (IF e.clean THEN <<>> ELSE <<Msg("FAIL C03", ll, "parser parameters not clean beyond the live prefix")>>)]
+                 \o (IF e.clean THEN <<>> ELSE <<Msg("FAIL C03", ll, "parser parameters not clean beyond the live prefix")>>)
+                 \o (LET tm == TokenMeaning(e.s) n == Len(e.outs) IN
+                     IF tm.known /\ n = Len(e.s)
+                        /\ ~(FnEq(e.outs[n], tm.fn) /\ (\A i \in 1..(n - 1) : e.outs[i].f = "None") /\ e.st.state = "Ground")
+                     THEN <<Msg("FAIL C03", ll, "dispatch differs from the meaning of the sequence as written: " \o ToJson(tm.fn))>> ELSE <<>>)]
   ELSE \* "sw"
     LET bgp == ParserRun(InitP, e.bg).p
         exp == [out |-> e.out, st |-> e.st]
@@ -271,10 +279,33 @@ HandleParser(ll, e) ==
                  \o (IF wide /\ e.lo + 255 < 160 THEN <<Msg("CONF", ll, "what=sweep owners={\"C03\"} a run wholly below U+00A0 spans more than 4096 code points")>> ELSE <<>>)
                  \o (IF e.clean THEN <<>> ELSE <<Msg("FAIL C03", ll, "parser parameters not clean beyond the live prefix")>>)]
 
-TraceInit == l = 1 /\ vts = <<>> /\ gh = <<>> /\ pp = InitP
+Bump(c, tags) == FoldLeft(LAMBDA acc, tg : IF tg \in DOMAIN acc THEN [acc EXCEPT ![tg] = @ + 1] ELSE acc @@ (tg :> 1), c, tags)
+(* which predicates an event exercises *)
+Tags(e, prevs, p0) ==
+  IF e.ev = "pf" THEN <<"conformance:parser">> \o (IF TokenMeaning(e.s).known THEN <<"TokenMeaning">> ELSE <<>>)
+  ELSE IF e.ev = "sw" THEN <<"conformance:sweep-run">>
+  ELSE IF e.ev = "rel" THEN <<"relation:" \o e.name>>
+  ELSE IF e.ev = "text" THEN <<"conformance:text">>
+  ELSE IF e.ev = "dump" THEN <<"conformance:dump-mirror">>
+  ELSE IF e.ev = "rs" THEN <<"conformance:resize", "GeomOK", "ChangesSound", "Bound">>
+                           \o (IF prevs # Dead /\ ~prevs.t.alt /\ prevs.t.lim = -1 THEN <<"ResizeTextOK">> ELSE <<>>)
+  ELSE IF e.ev = "fc" THEN <<"conformance:feed", "GeomOK">>
+  ELSE IF e.ev = "fs" THEN
+       <<"conformance:feed_str", "GeomOK", "ChangesSound", "Bound">>
+       \o (IF prevs # Dead THEN
+             LET fns == Functions(prevs.p, e.s) IN
+             (IF TokenMeaning(e.s).known THEN <<"TokenMeaning">> ELSE <<>>)
+             \o (IF fns = <<>> /\ e.s # <<>> THEN <<"inert-call">> ELSE <<>>)
+             \o (IF Len(fns) = 1 THEN <<"fn:" \o fns[1].f>> \o (IF StepProp(prevs.t, fns[1]) # "none" THEN <<"StepOK:" \o StepProp(prevs.t, fns[1])>> ELSE <<>>) ELSE <<>>)
+           ELSE <<>>)
+  ELSE IF e.ev = "panic" THEN <<"panic">>
+  ELSE <<>>
+TraceInit == l = 1 /\ vts = <<>> /\ gh = <<>> /\ pp = InitP /\ cnt = <<>>
 TraceNext ==
   /\ l <= Len(Rec)
   /\ l' = l + 1
+  /\ cnt' = Bump(cnt, Tags(Rec[l], IF "slot" \in DOMAIN Rec[l] /\ Rec[l].ev \in {"fs", "fc", "rs"} /\ Rec[l].slot <= Len(vts) THEN vts[Rec[l].slot] ELSE Dead, pp))
+  /\ (l = Len(Rec) => PrintT("@@ COUNTS " \o ToJson(cnt')))
   /\ IF Rec[l].ev \in {"pnew", "pf", "sw"}
      THEN LET h == HandleParser(l, Rec[l]) IN
           /\ pp' = h.pp /\ UNCHANGED <<vts, gh>>
@@ -284,7 +315,7 @@ TraceNext ==
           /\ gh' = h.gh
           /\ pp' = pp
           /\ \A i \in 1..Len(h.msgs) : PrintT(h.msgs[i])
-TraceSpec == TraceInit /\ [][TraceNext]_<<l, vts, gh, pp>>
+TraceSpec == TraceInit /\ [][TraceNext]_<<l, vts, gh, pp, cnt>>
 
 (* Every event must have been consumed: initial state + one state per event.    *)
 TraceAccepted ==
